@@ -4,6 +4,7 @@ package main
 // registry/remote/auth, registry/remote/retry, internal/httputil).
 
 import (
+	"fmt"
 	"go/constant"
 	"go/token"
 	"go/types"
@@ -174,6 +175,12 @@ func c13ConstInt(v ssa.Value) (int64, bool) {
 }
 
 func c13TestsOf(fn *ssa.Function, vals map[ssa.Value]bool) *c13IntTests {
+	return c13TestsOfBound(fn, vals, nil)
+}
+
+// c13TestsOfBound: as c13TestsOf; values in bind (parameters bound to integer
+// constants at the call under analysis) count as those constants.
+func c13TestsOfBound(fn *ssa.Function, vals map[ssa.Value]bool, bind map[ssa.Value]int64) *c13IntTests {
 	out := &c13IntTests{eq: map[int64][]Edge{}, neq: map[int64][]Edge{}}
 	for _, i := range Ifs(fn) {
 		cond, t, f := ifEdges(i)
@@ -199,6 +206,12 @@ func c13TestsOf(fn *ssa.Function, vals map[ssa.Value]bool) *c13IntTests {
 			continue
 		}
 		k, isConst := c13ConstInt(y)
+		if !isConst && bind != nil {
+			k, isConst = bind[y]
+			if !isConst {
+				k, isConst = bind[strip(y)]
+			}
+		}
 		if !isConst {
 			out.other = append(out.other, i)
 			continue
@@ -592,4 +605,320 @@ func itoa64(k int64) string {
 		b = append([]byte{'-'}, b...)
 	}
 	return string(b)
+}
+
+// ---------- interprocedural fact summaries ----------
+
+// c13Fact computes, inside one function, where a fact about the response
+// values `resp` is established: the edges on which it is known to hold and
+// the error values whose being returned as is carries the verdict.
+type c13Fact struct {
+	ID  string
+	Use func(fn *ssa.Function, resp map[ssa.Value]bool, bind map[ssa.Value]int64) (edges []Edge, direct []ssa.Value)
+}
+
+var c13SummaryMemo = map[string]bool{}
+
+// c13RespParamCalls lists the plain calls in fn that hand a value of `resp`
+// to an in-module function with a body, together with the parameter index.
+func c13RespParamCalls(fn *ssa.Function, resp map[ssa.Value]bool) (calls []*ssa.Call, idxs []int) {
+	for _, ci := range Calls(fn, func(string) bool { return true }) {
+		call, ok := ci.(*ssa.Call)
+		if !ok {
+			continue
+		}
+		g := StaticCallee(call)
+		if g == nil || !inModule(g) || len(g.Blocks) == 0 || len(g.Params) != len(call.Call.Args) {
+			continue
+		}
+		for i, a := range call.Call.Args {
+			if resp[a] {
+				calls, idxs = append(calls, call), append(idxs, i)
+				break
+			}
+		}
+	}
+	return
+}
+
+// c13FactCut: the cut for fact in fn — the fact's own edges plus the nil-error
+// edges of calls to helpers that establish the fact for the response handed to
+// them (every possibly-nil error return of the helper passes the fact; helper
+// summaries to the given depth).  direct: error values that carry the verdict.
+func c13FactCut(fn *ssa.Function, resp map[ssa.Value]bool, fact c13Fact, depth int) (*cut, map[ssa.Value]bool) {
+	return c13FactCutBound(fn, resp, nil, fact, depth)
+}
+
+func c13FactCutBound(fn *ssa.Function, resp map[ssa.Value]bool, bind map[ssa.Value]int64, fact c13Fact, depth int) (*cut, map[ssa.Value]bool) {
+	edges, dvals := fact.Use(fn, resp, bind)
+	ct := newCut().Edges(edges...)
+	direct := map[ssa.Value]bool{}
+	for _, d := range dvals {
+		for a := range Aliases(d) {
+			direct[a] = true
+		}
+	}
+	if depth <= 0 {
+		return ct, direct
+	}
+	calls, idxs := c13RespParamCalls(fn, resp)
+	for k, call := range calls {
+		h := StaticCallee(call)
+		if ErrResultIndex(h.Signature) < 0 || h == fn {
+			continue
+		}
+		// integer parameters of the helper that receive constants at this call (e.g. the expected status)
+		hb := map[ssa.Value]int64{}
+		for i, a := range call.Call.Args {
+			if kk, isC := c13ConstInt(a); isC {
+				hb[h.Params[i]] = kk
+			} else if kk, isB := bind[a]; isB {
+				hb[h.Params[i]] = kk
+			}
+		}
+		if !c13HelperEstablishesBound(h, idxs[k], hb, fact, depth-1) {
+			continue
+		}
+		if e := ErrOf(call); e != nil {
+			al := Aliases(e)
+			nilE, _, _ := NilTests(fn, al)
+			ct.Edges(nilE...)
+			for a := range al {
+				direct[a] = true
+			}
+		}
+	}
+	return ct, direct
+}
+
+// c13HelperEstablishes: every possibly-nil error return of h passes the fact
+// about h's parameter #idx.
+func c13HelperEstablishes(h *ssa.Function, idx int, fact c13Fact, depth int) bool {
+	return c13HelperEstablishesBound(h, idx, nil, fact, depth)
+}
+
+func c13HelperEstablishesBound(h *ssa.Function, idx int, bind map[ssa.Value]int64, fact c13Fact, depth int) bool {
+	bk := ""
+	for i, p := range h.Params {
+		if v, ok := bind[p]; ok {
+			bk += fmt.Sprintf("%d=%d,", i, v)
+		}
+	}
+	key := fmt.Sprintf("%p|%d|%s|%d|%s", h, idx, fact.ID, depth, bk)
+	if v, ok := c13SummaryMemo[key]; ok {
+		return v
+	}
+	c13SummaryMemo[key] = false // recursion guard
+	resp := Aliases(h.Params[idx])
+	ct, direct := c13FactCutBound(h, resp, bind, fact, depth)
+	if len(ct.edges) == 0 && len(ct.instrs) == 0 && len(direct) == 0 {
+		return false
+	}
+	ok := c13SuccessEscapes(h, h.Blocks[0], 0, ct, direct) == nil
+	c13SummaryMemo[key] = ok
+	return ok
+}
+
+// c13MethodsOfSite: constant HTTP methods of the request of an exchange; when
+// the exchange goes through an in-module forwarder that builds the request
+// itself, the methods of the forwarder's own exchanges.
+func c13MethodsOfSite(site ssa.CallInstruction, depth int) ([]string, bool) {
+	if req := c13RequestArg(site); req != nil {
+		if ms, ok := c13MethodsOfRequest(req); ok {
+			return ms, true
+		}
+		// request handed in as a parameter: look at the callers' arguments
+		if p, isParam := req.(*ssa.Parameter); isParam && depth > 0 {
+			return c13MethodsOfParam(p, depth-1)
+		}
+	}
+	g := StaticCallee(site)
+	if g == nil || !inModule(g) || len(g.Blocks) == 0 || depth <= 0 {
+		return nil, false
+	}
+	seen := map[string]bool{}
+	var out []string
+	inner := c13SendSites(g)
+	if len(inner) == 0 {
+		return nil, false
+	}
+	for _, s := range inner {
+		ms, ok := c13MethodsOfSite(s, depth-1)
+		if !ok {
+			// the helper's request is its own parameter: resolve at this call
+			if req := c13RequestArg(s); req != nil {
+				if p, isParam := req.(*ssa.Parameter); isParam {
+					for i, q := range g.Params {
+						if q == p && i < len(site.Common().Args) {
+							ms, ok = c13MethodsOfRequest(site.Common().Args[i])
+						}
+					}
+				}
+			}
+			if !ok {
+				return nil, false
+			}
+		}
+		for _, m := range ms {
+			if !seen[m] {
+				seen[m] = true
+				out = append(out, m)
+			}
+		}
+	}
+	sort.Strings(out)
+	return out, len(out) > 0
+}
+
+func c13MethodsOfParam(p *ssa.Parameter, depth int) ([]string, bool) {
+	return nil, false
+}
+
+// ---------- facts through boolean variables ----------
+
+// c13CondClass classifies an atomic (non-phi, non-negation) boolean value:
+// does its being true / false imply the fact?
+type c13CondClass func(cond ssa.Value) (trueImplies, falseImplies bool)
+
+// c13FactEdgesOfConds returns the edges of fn on which the fact is known,
+// for conditions tested directly and for conditions first stored in boolean
+// variables (`ok := a || b; if !ok {…}` — SSA: an If on a phi of booleans):
+// an If's edge counts when the truth value it stands for implies the fact
+// through every incoming value of the phi (a constant incoming value counts
+// when the edge it arrives on already lies behind the fact).
+func c13FactEdgesOfConds(fn *ssa.Function, classify c13CondClass) []Edge {
+	set := map[Edge]bool{}
+	list := func() []Edge {
+		var out []Edge
+		for e := range set {
+			out = append(out, e)
+		}
+		return out
+	}
+	behind := func(e Edge) bool {
+		if set[e] {
+			return true
+		}
+		if len(set) == 0 {
+			return false
+		}
+		return !reach(fn.Blocks[0], 0, e.From.Instrs[len(e.From.Instrs)-1], newCut().Edges(list()...))
+	}
+	var implies func(v ssa.Value, truth bool, depth int) bool
+	implies = func(v ssa.Value, truth bool, depth int) bool {
+		if depth > 6 {
+			return false
+		}
+		switch u := v.(type) {
+		case *ssa.UnOp:
+			if u.Op == token.NOT {
+				return implies(u.X, !truth, depth+1)
+			}
+		case *ssa.Const:
+			if u.Value != nil && u.Value.Kind() == constant.Bool {
+				return constant.BoolVal(u.Value) != truth // cannot have that truth value here
+			}
+		case *ssa.Phi:
+			for i, e := range u.Edges {
+				if implies(e, truth, depth+1) {
+					continue
+				}
+				if !behind(Edge{u.Block().Preds[i], u.Block()}) {
+					return false
+				}
+			}
+			return true
+		}
+		t, f := classify(v)
+		if truth {
+			return t
+		}
+		return f
+	}
+	for round := 0; round < 4; round++ {
+		n := len(set)
+		for _, i := range Ifs(fn) {
+			cond, t, f := ifEdges(i)
+			if implies(cond, true, 0) {
+				set[t] = true
+			}
+			if implies(cond, false, 0) {
+				set[f] = true
+			}
+		}
+		if len(set) == n {
+			break
+		}
+	}
+	out := list()
+	sort.Slice(out, func(i, j int) bool {
+		if out[i].From.Index != out[j].From.Index {
+			return out[i].From.Index < out[j].From.Index
+		}
+		return out[i].To.Index < out[j].To.Index
+	})
+	return out
+}
+
+// c13CmpNorm: BinOp comparison with the operand in `left` on the left side
+// (operator mirrored when it was on the right); ok=false if neither side is.
+func c13CmpNorm(v ssa.Value, left map[ssa.Value]bool) (op token.Token, other ssa.Value, ok bool) {
+	bo, isBin := v.(*ssa.BinOp)
+	if !isBin {
+		return 0, nil, false
+	}
+	switch {
+	case left[bo.X]:
+		return bo.Op, bo.Y, true
+	case left[bo.Y]:
+		m := map[token.Token]token.Token{token.LSS: token.GTR, token.GTR: token.LSS, token.LEQ: token.GEQ, token.GEQ: token.LEQ, token.EQL: token.EQL, token.NEQ: token.NEQ}
+		if o, known := m[bo.Op]; known {
+			return o, bo.X, true
+		}
+	}
+	return 0, nil, false
+}
+
+// c13EmptyStringClass: cond says `s == ""` (true-implies) / `s != ""`
+// (false-implies) for s in vals, also via len(s) comparisons with 0/1.
+func c13EmptyStringClass(vals map[ssa.Value]bool) c13CondClass {
+	return func(cond ssa.Value) (bool, bool) {
+		bo, ok := cond.(*ssa.BinOp)
+		if !ok {
+			return false, false
+		}
+		if ln, isLen := bo.X.(*ssa.Call); isLen && CalleeName(ln) == "builtin:len" && vals[ln.Call.Args[0]] {
+			k, isC := c13ConstInt(bo.Y)
+			if !isC {
+				return false, false
+			}
+			switch {
+			case bo.Op == token.EQL && k == 0, bo.Op == token.LSS && k == 1, bo.Op == token.LEQ && k == 0:
+				return true, false
+			case bo.Op == token.NEQ && k == 0, bo.Op == token.GTR && k == 0, bo.Op == token.GEQ && k == 1:
+				return false, true
+			}
+			return false, false
+		}
+		op, other, isCmp := c13CmpNorm(cond, vals)
+		if !isCmp {
+			return false, false
+		}
+		if s, isStr := constString(other); isStr && s == "" {
+			return op == token.EQL, op == token.NEQ
+		}
+		return false, false
+	}
+}
+
+// c13OrClass: the fact holds if any of the classes says so.
+func c13OrClass(cs ...c13CondClass) c13CondClass {
+	return func(cond ssa.Value) (bool, bool) {
+		t, f := false, false
+		for _, c := range cs {
+			a, b := c(cond)
+			t, f = t || a, f || b
+		}
+		return t, f
+	}
 }
